@@ -30,6 +30,42 @@ pub struct Job {
     /// 0 Uncompressed, 1 Fastest
     pub level: u8,
     pub chunking: Chunking,
+    /// (reused compressor only) before this job the same compressor goes through a compress() call
+    /// that does not complete: 1 the drain fails after `abort_arg` bytes, 2 an unimplemented level is
+    /// selected, 3 the source fails after `abort_arg` bytes. compress() has no error return - it
+    /// panics; the caller catches that and goes on using the compressor for the next input
+    #[serde(default)]
+    pub abort_before: u8,
+    #[serde(default)]
+    pub abort_arg: u32,
+}
+
+/// drain of the reused compressor: memory, or one that fails after `left` more bytes
+pub enum Sink {
+    Mem(Vec<u8>),
+    Failing { left: usize },
+}
+
+impl std::io::Write for Sink {
+    fn write(&mut self, buf: &[u8]) -> std::io::Result<usize> {
+        match self {
+            Sink::Mem(v) => {
+                v.extend_from_slice(buf);
+                Ok(buf.len())
+            }
+            Sink::Failing { left } => {
+                if *left == 0 {
+                    return Err(std::io::Error::other("disk full"));
+                }
+                let n = buf.len().min(*left);
+                *left -= n;
+                Ok(n)
+            }
+        }
+    }
+    fn flush(&mut self) -> std::io::Result<()> {
+        Ok(())
+    }
 }
 
 #[derive(Clone, Debug, Serialize, Deserialize)]
@@ -44,10 +80,17 @@ pub struct FragReader {
     pos: usize,
     chunking: Chunking,
     calls: usize,
+    /// reads fail once this many bytes were handed out
+    fail_at: Option<usize>,
 }
 
 impl Read for FragReader {
     fn read(&mut self, buf: &mut [u8]) -> std::io::Result<usize> {
+        if let Some(f) = self.fail_at {
+            if self.pos >= f {
+                return Err(std::io::Error::other("source went away"));
+            }
+        }
         let left = self.data.len() - self.pos;
         let want = match &self.chunking {
             Chunking::Whole | Chunking::Take(_) => buf.len(),
@@ -63,7 +106,10 @@ impl Read for FragReader {
             }
         };
         self.calls += 1;
-        let n = want.min(buf.len()).min(left);
+        let mut n = want.min(buf.len()).min(left);
+        if let Some(f) = self.fail_at {
+            n = n.min(f - self.pos);
+        }
         buf[..n].copy_from_slice(&self.data[self.pos..self.pos + n]);
         self.pos += n;
         Ok(n)
@@ -96,7 +142,16 @@ pub fn job_strategy(max_len: u32) -> impl Strategy<Value = Job> {
             Chunking::Fixed(n) if n < 8 && data.len > 300_000 => Chunking::Fixed(4099),
             c => c,
         };
-        Job { data, level, chunking }
+        Job { data, level, chunking, abort_before: 0, abort_arg: 0 }
+    })
+}
+
+/// jobs for a reused compressor: some are preceded by a compress() call that does not complete
+fn reuse_job_strategy(max_len: u32) -> impl Strategy<Value = Job> {
+    (job_strategy(max_len), prop_oneof![6 => Just(0u8), 1 => Just(1u8), 1 => Just(2u8), 1 => Just(3u8)], prop_oneof![Just(0u32), 1u32..=40, 1u32..=200_000]).prop_map(|(mut j, a, arg)| {
+        j.abort_before = a;
+        j.abort_arg = arg;
+        j
     })
 }
 
@@ -104,7 +159,7 @@ pub fn case_strategy(tier: Tier) -> impl Strategy<Value = Case> {
     let max_len = if tier == Tier::Quick { 1 << 20 } else { 8 << 20 };
     prop_oneof![
         3 => job_strategy(max_len).prop_map(|j| Case { jobs: vec![j], oneshot: true }),
-        5 => prop::collection::vec(job_strategy(max_len.min(600_000)), 1..=6).prop_map(|jobs| Case { jobs, oneshot: false }),
+        5 => prop::collection::vec(reuse_job_strategy(max_len.min(600_000)), 1..=6).prop_map(|jobs| Case { jobs, oneshot: false }),
     ]
 }
 
@@ -114,7 +169,7 @@ pub fn compress_history(case: &Case) -> Vec<(Vec<u8>, Vec<u8>)> {
     if case.oneshot {
         let j = &case.jobs[0];
         let data = j.data.render();
-        let rd = FragReader { data: data.clone(), pos: 0, chunking: j.chunking.clone(), calls: 0 };
+        let rd = FragReader { data: data.clone(), pos: 0, chunking: j.chunking.clone(), calls: 0, fail_at: None };
         let frame = match &j.chunking {
             Chunking::Take(extra) => compress_to_vec(rd.take(data.len() as u64 + *extra as u64), level_of(j.level)),
             _ => compress_to_vec(rd, level_of(j.level)),
@@ -122,14 +177,30 @@ pub fn compress_history(case: &Case) -> Vec<(Vec<u8>, Vec<u8>)> {
         out.push((data, frame));
         return out;
     }
-    let mut comp: FrameCompressor<FragReader, Vec<u8>, _> = FrameCompressor::new(level_of(case.jobs[0].level));
+    let mut comp: FrameCompressor<FragReader, Sink, _> = FrameCompressor::new(level_of(case.jobs[0].level));
     for j in &case.jobs {
         let data = j.data.render();
+        if j.abort_before % 4 != 0 {
+            // a compress() call that does not complete (it panics: the API has no error return);
+            // the caller catches that and keeps using the compressor
+            let (level, sink, fail_at) = match j.abort_before % 4 {
+                1 => (level_of(j.level), Sink::Failing { left: j.abort_arg as usize % (data.len() / 2 + 9) }, None),
+                2 => (CompressionLevel::Default, Sink::Mem(Vec::new()), None),
+                _ => (level_of(j.level), Sink::Mem(Vec::new()), Some(if data.len() > BLOCK as usize + 2000 { BLOCK as usize + j.abort_arg as usize % 2000 } else { j.abort_arg as usize % (data.len() + 1) })),
+            };
+            comp.set_compression_level(level);
+            comp.set_source(FragReader { data: data.clone(), pos: 0, chunking: j.chunking.clone(), calls: 0, fail_at });
+            comp.set_drain(sink);
+            let _ = std::panic::catch_unwind(std::panic::AssertUnwindSafe(|| comp.compress()));
+        }
         comp.set_compression_level(level_of(j.level));
-        comp.set_source(FragReader { data: data.clone(), pos: 0, chunking: j.chunking.clone(), calls: 0 });
-        comp.set_drain(Vec::new());
+        comp.set_source(FragReader { data: data.clone(), pos: 0, chunking: j.chunking.clone(), calls: 0, fail_at: None });
+        comp.set_drain(Sink::Mem(Vec::new()));
         comp.compress();
-        let frame = comp.take_drain().unwrap();
+        let frame = match comp.take_drain() {
+            Some(Sink::Mem(v)) => v,
+            _ => vec![],
+        };
         out.push((data, frame));
     }
     out
@@ -217,6 +288,7 @@ pub fn check(case: &Case, ctx: &mut CaseCtx) -> CaseResult {
         }
         ctx.feat(j.data.kind_name());
         ctx.feat_if(i >= 1, "enc:reused_compressor");
+        ctx.feat_if(!case.oneshot && j.abort_before % 4 != 0, ["", "enc:after_a_compress_whose_drain_failed", "enc:after_a_compress_with_an_unimplemented_level", "enc:after_a_compress_whose_source_failed"][(j.abort_before % 4) as usize]);
         ctx.feat_if(j.chunking != Chunking::Whole, "enc:fragmented_source");
         parts.push(frame_bytes);
     }
@@ -231,7 +303,7 @@ pub fn check(case: &Case, ctx: &mut CaseCtx) -> CaseResult {
 }
 
 pub fn run(eng: &Engine) {
-    eng.set_rule("compressor histories: 1..6 frames through one reused FrameCompressor (levels Uncompressed/Fastest switched per frame) or the one-shot compress_to_vec, inputs from the data generator (incl. the boundary-seeking family that sits on the raw-fallback decision), sources fragmented by generated read patterns (1-byte reads, reads ending on block boundaries, Read::take); every frame decoded by libzstd (checksum verified) and by this crate's decode_all and StreamingDecoder; non-trivial = non-empty input whose frame contains a Compressed block; distinct by hash of the emitted frames; evaluations count frames");
+    eng.set_rule("compressor histories: 1..6 frames through one reused FrameCompressor (levels Uncompressed/Fastest switched per frame) or the one-shot compress_to_vec, inputs from the data generator (incl. the boundary-seeking family that sits on the raw-fallback decision), sources fragmented by generated read patterns (1-byte reads, reads ending on block boundaries, Read::take); on the reused compressor some frames are preceded by a compress() call that does not complete (failing drain, failing source, unimplemented level - the call panics, the caller catches it and goes on); every frame decoded by libzstd (checksum verified) and by this crate's decode_all and StreamingDecoder; non-trivial = non-empty input whose frame contains a Compressed block; distinct by hash of the emitted frames; evaluations count frames");
     eng.assume("levels Default/Better/Best are documented unimplemented and not part of 'every implemented level'");
     let tier = eng.tier;
     let n = eng.tier.pick(20_000, 300_000);
